@@ -604,7 +604,13 @@ def h_partial(ip, st, args, kw, node):
     """functools.partial(f, *args, **kw): a callable value the interpreter can call later"""
     if not args:
         return app('functools.partial')
-    return Const(('partial', args[0], tuple(args[1:]), tuple(sorted(kw.items()))))
+    pos, kw = list(args[1:]), dict(kw)
+    for x in list(pos):
+        xa = x.single_atom() if isinstance(x, Poly) else None
+        if xa is not None and xa[0] == 'app' and xa[1] == 'starstar':
+            pos.remove(x)               # partial(f, **mapping): an unknown mapping of keyword arguments, not a positional one
+            kw[None] = xa[2][0]
+    return Const(('partial', args[0], tuple(pos), tuple(sorted(kw.items(), key=lambda t: str(t[0])))))
 
 
 HANDLERS['functools.partial'] = h_partial
